@@ -50,7 +50,7 @@ theorem typeFinder_sorted (t : STab) (pr pc : Nat) :
     List.Pairwise.filter _ (List.Pairwise.filter _ List.pairwise_lt_range),
     List.Pairwise.filter _ (List.Pairwise.filter _ List.pairwise_lt_range)⟩
 
-theorem pickType_sorted (t : STab) (pr pc ty : Nat) : (t.pickType pr pc ty).Pairwise (· < ·) := by
+theorem pickType_sorted_ss (t : STab) (pr pc ty : Nat) : (t.pickType pr pc ty).Pairwise (· < ·) := by
   unfold pickType
   split
   · exact (typeFinder_sorted t pr pc).1
@@ -66,7 +66,7 @@ theorem tail_gt_of_sorted (a : Nat) (l l0 : List Nat) (hs : l0.Pairwise (· < ·
 
 theorem pickType_tail_gt (t : STab) (pr pc ty a : Nat) (l : List Nat) (e : t.pickType pr pc ty = a :: l) :
     ∀ i, i ∈ l → a < i :=
-  tail_gt_of_sorted a l _ (pickType_sorted t pr pc ty) e
+  tail_gt_of_sorted a l _ (pickType_sorted_ss t pr pc ty) e
 
 theorem mem_typeFinder_ptype (t : STab) (pr pc f : Nat) :
     (f ∈ (t.pauliTypeFinder pr pc).1 → t.ptype f pc = 1) ∧ (f ∈ (t.pauliTypeFinder pr pc).2.1 → t.ptype f pc = 2) ∧
@@ -315,7 +315,7 @@ theorem eqv_rrefLoop (t0 : STab) (fuel : Nat) (t : STab) (pr pc : Nat) (brs : Li
 
 /-- **`rref` preserves the state**: whenever it returns, the echelon form generates the same signed stabilizer group
     as the input (both inclusions) and is again a real commuting generating set, for every number of qubits -/
-theorem rref_spanEq (t t' : STab) (brs : List String) (hg : t.Good) (hr : t.rref = .ok (t', brs)) :
+theorem rref_spanEq_ss (t t' : STab) (brs : List String) (hg : t.Good) (hr : t.rref = .ok (t', brs)) :
     SpanEq t t' ∧ t'.Good := by
   unfold rref at hr
   split at hr
